@@ -231,6 +231,7 @@ def run_phybo_modes(chk):
     corpus = [([2, [4, [5, 0], 3, 1]], {2: -1, 4: 1, 5: -1, 0: -1, 3: 1, 1: 0}, -1, 'topdown', 2),
               ([[3, 7], [[6, 0], 2], [[5, 1], 4]], {3: 0, 7: 1, 6: 0, 0: 0, 2: 1, 5: 0, 1: -1, 4: -1}, -1, 'topdown', 2),
               ([[2, 1], 0], {2: 0, 1: 1, 0: 1}, 0, 'topdown', 1)]
+    held = None
     for it in range(n + len(corpus)):
         forced = None
         if it < len(corpus):
@@ -247,8 +248,23 @@ def run_phybo_modes(chk):
                     pat[j] = 1
             md = rng.choice([0, -1])
             mode = rng.choice(['restriction', 'weighted-internal', 'topdown'])
-        tree, taxa, paps = prepare(t, pat)
+        if it >= len(corpus) and held is not None and len(held[3]) < 6 and rng.random() < 0.5:
+            # a history on one tree object: the routines mark nodes of the tree while they run (lowestCommonAncestor), so what a call
+            # returns can depend on the calls made before; the statement is about every call
+            t, tree, taxa, before = held
+            k = len(taxa)
+            pat = [rng.choice(pool) for _ in range(k)]
+            if pat.count(1) < 2:
+                for j in rng.sample(range(k), 2):
+                    pat[j] = 1
+            paps = [pat[int(x[1:])] for x in taxa]
+            chk.hist['PhyBo: call on a tree used before'] += 1
+        else:
+            tree, taxa, paps = prepare(t, pat)
+            before = []
+            held = (t, tree, taxa, before) if it >= len(corpus) else None
         p = phybo_stub(tree, taxa)
+        history = list(before)
         try:
             if mode == 'restriction':
                 r = rng.choice([1, 2, 3, 4])
@@ -272,8 +288,9 @@ def run_phybo_modes(chk):
         except Exception as ex:  # noqa
             fails.append((mode, t, paps, md, 'raised %s: %s' % (type(ex).__name__, str(ex)[:80]), None, None))
             continue
+        before.append({'mode': mode, 'paps': list(paps), 'missing_data': md, 'arg': arg})
         chk.count(('phybo', mode, gl.newick(t), tuple(paps), md, arg), 0 in paps, branch='PhyBo:' + mode)
-        if mode in ('restriction', 'weighted-internal') and len(taxa) <= 8:
+        if mode in ('restriction', 'weighted-internal') and len(taxa) <= 8 and not history:
             # tie for theorem C07_restriction: the scenario must be one of the model's root scenarios (all candidates the
             # bottom-up combination can build, before any filtering)
             names, toks = gl.structure(tree)
@@ -282,7 +299,7 @@ def run_phybo_modes(chk):
         e = gl.oracle_c07(tree, taxa, paps, sc, md)
         if e:
             key = 'topdown-md-1-conflicting-events' if (mode == 'topdown' and md == -1 and -1 in paps and 'a gain and a loss' in e) else None
-            fails.append((mode, t, paps, md, e, key, (arg, sc)))
+            fails.append((mode, t, paps, md, e, key, (arg, sc), history))
     drv = common.Driver()
     outs = drv.ask_many(member_lines)
     drv.close()
@@ -297,8 +314,6 @@ def run_phybo_modes(chk):
             member_bad.append((mode, t, paps, md, arg, sc))
     chk.obligation('correspondence:PhyBo._get_GLS (restriction, weighted) scenario is one of the model\'s root scenarios (membership in glsRCandidates; theorem C07_restriction)',
                    'correspondence', not member_bad, 'calls=%d (trees with <= 8 leaves) mismatches=%d %s' % (len(member_lines), len(member_bad), str(member_bad[0])[:200] if member_bad else ''))
-    chk.tested_not_proved.append('PhyBo top-down mode: replay oracle on the implementation (stub object), not modelled in Lean; restriction / internal weighted mode: '
-                                 'candidate generation modelled (candsR), selection among candidates not modelled (any selection is covered by C07_restriction)')
     chk.obligation('oracle:PhyBo._get_GLS (restriction, weighted) and _get_GLS_top_down replay to the pattern', 'correspondence',
                    not [f for f in fails if f[5] is None or not any(k['key'] == f[5] for k in chk.known)], 'calls=%d failures=%d' % (n, len(fails)))
     fails.sort(key=lambda f: len(f[2]))
@@ -314,13 +329,136 @@ def run_phybo_modes(chk):
         else:
             nrep += 1
         chk.violation('PhyBo %s mode (%r) on %s %r missing_data=%d: %s' % (f[0], f[6][0] if f[6] else None, gl.newick(f[1]), f[2], f[3], f[4]),
-                      {'kind': 'phybo', 'mode': f[0], 'tree': gl.newick(f[1]) + ';', 'paps': f[2], 'missing_data': f[3], 'arg_scenario': f[6], 'why': f[4]},
+                      {'kind': 'phybo', 'mode': f[0], 'tree': gl.newick(f[1]) + ';', 'paps': f[2], 'missing_data': f[3], 'arg_scenario': f[6], 'why': f[4],
+                       'calls_made_before_on_the_same_tree_object': f[7] if len(f) > 7 else []},
                       key=f[5])
     if member_bad and not [f for f in fails if f[5] is None]:
         b = member_bad[0]
         chk.violation('PhyBo %s mode returns a scenario outside the model\'s candidate set; the replay oracle found no failing input' % b[0],
                       {'kind': 'phybo-model', 'mode': b[0], 'tree': gl.newick(b[1]) + ';', 'paps': b[2], 'missing_data': b[3], 'arg': b[4], 'scenario': b[5],
                        'broken': 'correspondence:PhyBo._get_GLS membership'}, found_input=False)
+
+
+def run_phybo_wordlist(chk):
+    """the wordlist-driven entry point: a real PhyBo object (word list file + reference tree), get_GLS in its three modes.  Every stored
+    scenario must replay to the pattern stored for ITS cognate set, and the wrapper must add nothing to the stand-alone routines (same
+    scenario as the routine returns when called on that pattern, number of origins = number of gain events)"""
+    import logging
+    import os
+    import tempfile
+    from lingpy.compare.phylogeny import PhyBo
+    rng = chk.rng
+    fails, diffs = [], []
+    ncogs = 0
+    logging.disable(logging.CRITICAL)
+    try:
+        for it in range(chk.n(10, 120)):
+            k = rng.choice([4, 5, 6, 7])
+            t = gl.rand_nested(rng, k)
+            taxa = ['L%d' % i for i in range(k)]
+            rows, cid = [], 0
+            parts = []
+            for ci in range(rng.choice([3, 4, 5, 6])):
+                if parts and rng.random() < 0.5:
+                    # same partition as an earlier concept, but one doculect which had a different word there has none here (or the
+                    # other way round): two cognate sets with the same reflexes that differ only in absent vs. missing
+                    part = dict(rng.choice(parts))
+                    x = rng.choice(taxa)
+                    if x in part and list(part.values()).count(part[x]) == 1 and len(part) > 2:
+                        del part[x]
+                    elif x not in part:
+                        part[x] = max(part.values()) + 1
+                else:
+                    have = [x for x in taxa if rng.random() < 0.8]
+                    if len(have) < 2:
+                        have = rng.sample(taxa, 2)
+                    ncl = rng.choice([1, 2, 2, 3])
+                    part = {x: rng.randrange(ncl) for x in have}
+                parts.append(part)
+                base = cid
+                for x, c in sorted(part.items()):
+                    rows.append(('c%d' % ci, x, 'w%d' % (base + c + 1), base + c + 1))
+                cid = base + max(part.values()) + 1
+            with tempfile.TemporaryDirectory(dir='/var/tmp', prefix='verif-phybo-') as tmp:
+                infile = os.path.join(tmp, 'gl.qlc')
+                with open(infile, 'w') as f:
+                    f.write('ID\tDOCULECT\tCONCEPT\tIPA\tCOGID\n')
+                    for i, r in enumerate(rows, 1):
+                        f.write('%d\t%s\t%s\t%s\t%d\n' % (i, r[1], r[0], r[2], r[3]))
+                for md in (0, -1):
+                    for mode in ('weighted', 'restriction', 'topdown'):
+                        try:
+                            phy = PhyBo(infile, tree=gl.newick(t) + ';', output_dir=tmp)
+                        except Exception as ex:  # noqa
+                            fails.append((mode, t, rows, md, 'PhyBo() raised %s: %s' % (type(ex).__name__, str(ex)[:80]), None, None))
+                            continue
+                        ptaxa = list(phy.taxa)
+                        pats = {cog: list(phy.paps[cog]) for cog in phy.cogs}
+                        w, r = rng.choice(WEIGHTS), rng.choice([2, 3, 4])
+                        gpl, push = rng.choice([1, 2]), rng.random() < 0.5
+                        kw = dict(ratio=w, gpl=gpl, push_gains=push) if mode == 'weighted' else dict(restriction=r, gpl=gpl, push_gains=push)
+                        try:
+                            phy.get_GLS(mode=mode, force=True, missing_data=md, **kw)
+                        except (ValueError, KeyError):
+                            chk.hist['rejected:get_GLS-%s' % mode] += 1
+                            continue
+                        except Exception as ex:  # noqa
+                            fails.append((mode, t, rows, md, 'get_GLS raised %s: %s' % (type(ex).__name__, str(ex)[:80]), None, None))
+                            continue
+                        for glm in phy.gls:
+                            for cog in phy.cogs:
+                                sc, noo = phy.gls[glm][cog]
+                                ncogs += 1
+                                chk.count(('phybo-wl', mode, gl.newick(t), tuple(pats[cog]), md, str(kw)), -1 in pats[cog], branch='PhyBo.get_GLS:' + mode)
+                                if list(phy.paps[cog]) != pats[cog]:
+                                    # restriction and top-down mode recode missing entries of the stored pattern in place when
+                                    # missing_data=0; the property is stated against the pattern as it was when the call was made
+                                    chk.hist['note:get_GLS(%s, missing_data=%d) recoded the stored pattern in place' % (mode, md)] += 1
+                                e = gl.oracle_c07(phy.tree, ptaxa, pats[cog], sc, md)
+                                if e:
+                                    key = 'topdown-md-1-conflicting-events' if (mode == 'topdown' and md == -1 and -1 in pats[cog] and 'a gain and a loss' in e) else None
+                                    fails.append((mode, t, rows, md, 'cognate set %s pattern %r scenario %r: %s' % (cog, dict(zip(ptaxa, pats[cog])), sc, e), key, (kw, cog)))
+                                    continue
+                                if noo != sum(1 for _, ev in sc if ev == 1):
+                                    diffs.append((mode, cog, pats[cog], sc, 'number of origins %r' % (noo,)))
+                                # (not for the top-down mode: its calls of lowestCommonAncestor on subtrees leave marks on the nodes
+                                # above them, so the scenario it picks depends on the calls made before on the same tree - every one of
+                                # them has to replay, which is what the property asks, but they need not be equal)
+                                if sum(1 for q in pats[cog] if q == 1) > 1 and mode != 'topdown':
+                                    try:
+                                        if mode == 'weighted':
+                                            alone = gl.call_real(phy.tree, ptaxa, pats[cog], gpl, w, push, md)
+                                        else:
+                                            alone = phy._get_GLS(list(pats[cog]), r=r, mode='r', gpl=gpl, push_gains=push, missing_data=md)
+                                    except Exception:  # noqa
+                                        alone = None
+                                    if alone is not None and sorted(alone) != sorted(sc):
+                                        diffs.append((mode, cog, pats[cog], sc, 'the routine called on this pattern returns %r' % (alone,)))
+    finally:
+        logging.disable(logging.NOTSET)
+    chk.obligation('oracle:every scenario stored by PhyBo.get_GLS (word list + tree, three modes, missing_data 0 and -1) replays to the pattern of its cognate set',
+                   'correspondence', not [f for f in fails if f[5] is None or not any(k['key'] == f[5] for k in chk.known)],
+                   'cognate sets=%d failures=%d' % (ncogs, len(fails)))
+    chk.obligation('correspondence:PhyBo.get_GLS stores what the routine returns for the pattern of each cognate set (number of origins = gains)',
+                   'correspondence', not diffs, 'cognate sets=%d differences=%d %s' % (ncogs, len(diffs), str(diffs[0])[:200] if diffs else ''))
+    seen, nrep = set(), 0
+    for f in fails:
+        if f[5] in seen:
+            continue
+        if f[5] is not None:
+            seen.add(f[5])
+        elif nrep >= 2:
+            continue
+        else:
+            nrep += 1
+        chk.violation('PhyBo.get_GLS mode %s missing_data=%d on %s: %s' % (f[0], f[3], gl.newick(f[1]), f[4]),
+                      {'kind': 'phybo-wordlist', 'mode': f[0], 'tree': gl.newick(f[1]) + ';', 'rows (concept, doculect, form, cogid)': f[2], 'missing_data': f[3],
+                       'arguments_cogset': f[6], 'why': f[4]}, key=f[5])
+    if diffs and not [f for f in fails if f[5] is None]:
+        d = diffs[0]
+        chk.violation('PhyBo.get_GLS (%s) stores a scenario for cognate set %s that differs from the routine\'s (%s); the scenario replays to the pattern' % (d[0], d[1], d[4]),
+                      {'kind': 'phybo-wordlist-tie', 'mode': d[0], 'cog': d[1], 'pattern': d[2], 'scenario': d[3], 'why': d[4],
+                       'broken': 'correspondence:PhyBo.get_GLS wrapper'}, found_input=False)
 
 
 def replay(chk, path):
